@@ -19,6 +19,22 @@ def gen_graphs(rng, tier):
     for depth in (1200, 3000):       # chains thousands of states long
         yield dict(tl=[[(1, i + 1)] for i in range(depth)] + [[(1, depth)]], finals=[depth])
         yield dict(tl=[[(1, depth)]] + [[(1, i)] for i in range(depth)], finals=[0])
+    # larger, sparse graphs in which only a few widely spaced states reach a final state (a result assembled in hash or
+    # insertion order is then not ascending; with a handful of small states every such order happens to be ascending)
+    for i in range(n_rand // 10):
+        n = rng.randint(9, 40)
+        tl = [[] for _ in range(n)]
+        fin = [rng.randrange(n) for _ in range(rng.randint(1, 2))]
+        reach = set(fin)
+        for _ in range(rng.randint(1, 5)):
+            u = rng.randrange(n)
+            tl[u].append((rng.choice(["a", 1]), rng.choice(sorted(reach))))
+            reach.add(u)
+        for _ in range(rng.randint(0, 3)):      # edges among states that do not reach
+            others = [v for v in range(n) if v not in reach]
+            if others:
+                tl[rng.choice(others)].append(("x", rng.choice(others)))
+        yield dict(tl=tl, finals=fin)
     for i in range(n_rand):
         n = rng.randint(1, 7)
         tl = []
